@@ -888,7 +888,10 @@ func main() {
 		{Name: "c06-toobig", Hosts: []string{"hostA"}, Tasks: []coresim.TaskSpec{two[0], {Name: "tbig", Class: "c06big", Mode: "direct", Critical: true, Host: "hostA", Cpu: 100}}},
 		{Name: "c06-mismatch", Hosts: []string{"hostA"}, Tasks: []coresim.TaskSpec{{Name: "tm", Class: "c06m", Mode: "direct", Critical: true, Host: "hostA"}}},
 		{Name: "c06-tmplerr", Hosts: []string{"hostA"}, Tasks: []coresim.TaskSpec{{Name: "te-{{ undefined_function_xyz() }}", Class: "c06a", Mode: "direct", Critical: true, Host: "hostA"}}},
-		{Name: "c06-hooks0", Hosts: []string{"hostA"}, Tasks: two, Calls: []string{callRole("pend", "pending", "before_START_ACTIVITY", "after_NEVERHAPPENS")}},
+		{Name: "c06-hooks0", Hosts: []string{"hostA"}, Tasks: two, Calls: []string{callRole("pend", "pending", "before_START_ACTIVITY", "after_NEVERHAPPENS"),
+			// calls that the teardown itself starts (it fires leave_<state>) and whose await point never comes
+			callRole("pendlc", "pending-leave-configured", "leave_CONFIGURED", "after_NEVERHAPPENS"),
+			callRole("pendlr", "pending-leave-running", "leave_RUNNING", "after_NEVERHAPPENS")}},
 		{Name: "c06-slowcfg", Hosts: []string{"hostA"}, Tasks: two, Calls: []string{callRole("slowcfg", "slowcfg", "before_CONFIGURE", "")}},
 		{Name: "c06-hooks1", Hosts: []string{"hostA"}, Tasks: append(append([]coresim.TaskSpec{}, two...), hook(1, "DESTROY")), Calls: []string{callRole("d0", "d0", "DESTROY", "")}},
 		{Name: "c06-hooks2", Hosts: []string{"hostA"}, Tasks: append(append([]coresim.TaskSpec{}, two...), hook(1, "DESTROY-1"), hook(2, "after_DESTROY+1")), Calls: []string{callRole("d1", "d1", "after_DESTROY", "")}},
